@@ -1758,6 +1758,28 @@ impl Database {
 
         let mut key_buf: SmallVec<[u8; 64]> = SmallVec::new();
 
+        // The row decoder hands BOOLEAN, DATE, TIME and TIMESTAMP columns back as plain integers.
+        // Index keys are built from the typed value (as INSERT does), so give such a value its
+        // column's type back before encoding it; otherwise the old entry is never found.
+        let encode_column_key = |value: &OwnedValue, col_idx: usize, buf: &mut SmallVec<[u8; 64]>| {
+            use crate::records::types::DataType;
+            match (value, columns.get(col_idx).map(|c| c.data_type())) {
+                (OwnedValue::Int(i), Some(DataType::Bool)) => {
+                    Self::encode_value_as_key(&OwnedValue::Bool(*i != 0), buf)
+                }
+                (OwnedValue::Int(i), Some(DataType::Date)) => {
+                    Self::encode_value_as_key(&OwnedValue::Date(*i as i32), buf)
+                }
+                (OwnedValue::Int(i), Some(DataType::Time)) => {
+                    Self::encode_value_as_key(&OwnedValue::Time(*i), buf)
+                }
+                (OwnedValue::Int(i), Some(DataType::Timestamp)) => {
+                    Self::encode_value_as_key(&OwnedValue::Timestamp(*i), buf)
+                }
+                _ => Self::encode_value_as_key(value, buf),
+            }
+        };
+
         for (col_idx, index_name, _is_pk) in &unique_columns {
             if !modified_col_indices.contains(col_idx) {
                 continue;
@@ -1781,7 +1803,7 @@ impl Database {
                     if let Some(old_value) = old_row_values.get(*col_idx) {
                         if !old_value.is_null() {
                             key_buf.clear();
-                            Self::encode_value_as_key(old_value, &mut key_buf);
+                            encode_column_key(old_value, *col_idx, &mut key_buf);
                             let _ = index_btree.delete(&key_buf);
                         }
                     }
@@ -1789,12 +1811,19 @@ impl Database {
                     if let Some(new_value) = new_row_values.get(*col_idx) {
                         if !new_value.is_null() {
                             key_buf.clear();
-                            Self::encode_value_as_key(new_value, &mut key_buf);
+                            encode_column_key(new_value, *col_idx, &mut key_buf);
                             // index entries point at the row's key in the table B-tree (as
                             // INSERT writes them), which is not the primary-key value
                             let _ = index_btree.insert(&key_buf, row_key);
                         }
                     }
+                }
+
+                // an insert may have split the index root
+                let new_index_root = index_btree.root_page();
+                if new_index_root != index_root_page {
+                    let page0 = index_storage.page_mut(0)?;
+                    IndexFileHeader::from_bytes_mut(page0)?.set_root_page(new_index_root);
                 }
             }
         }
@@ -1840,7 +1869,7 @@ impl Database {
                         key_buf.clear();
                         for &col_idx in col_indices {
                             if let Some(value) = old_row_values.get(col_idx) {
-                                Self::encode_value_as_key(value, &mut key_buf);
+                                encode_column_key(value, col_idx, &mut key_buf);
                             }
                         }
                         if !*is_unique {
@@ -1857,7 +1886,7 @@ impl Database {
                         key_buf.clear();
                         for &col_idx in col_indices {
                             if let Some(value) = new_row_values.get(col_idx) {
-                                Self::encode_value_as_key(value, &mut key_buf);
+                                encode_column_key(value, col_idx, &mut key_buf);
                             }
                         }
                         if !*is_unique {
@@ -1865,6 +1894,13 @@ impl Database {
                         }
                         let _ = index_btree.insert(&key_buf, row_key);
                     }
+                }
+
+                // an insert may have split the index root
+                let new_index_root = index_btree.root_page();
+                if new_index_root != index_root_page {
+                    let page0 = index_storage.page_mut(0)?;
+                    IndexFileHeader::from_bytes_mut(page0)?.set_root_page(new_index_root);
                 }
             }
         }
